@@ -15,3 +15,5 @@ pub mod c20_slot;
 pub mod c17_pathmap;
 #[cfg(kani)]
 pub mod c16_owned;
+#[cfg(kani)]
+pub mod c03_wrappers;
